@@ -134,7 +134,12 @@ impl CustomSender for Recorder {
     }
     fn poll_send(&self, _cx: &mut std::task::Context, dst: &CustomAddr, src: Option<&CustomAddr>, transmit: &Transmit<'_>) -> Poll<io::Result<()>> {
         self.log.lock().unwrap().push((self.id, dst.clone(), src.cloned(), transmit.contents.to_vec()));
-        Poll::Ready(Ok(()))
+        // scripted per-datagram failures: the endpoint must not report them to QUIC as fatal
+        match dst.data().first() {
+            Some(0xEE) => Poll::Ready(Err(io::Error::other("scripted custom transport failure"))),
+            Some(0xDD) => Poll::Pending,
+            _ => Poll::Ready(Ok(())),
+        }
     }
 }
 
@@ -428,7 +433,16 @@ fn gen_case(rng: &mut Rng, env: &Env, set: &SetSpec) -> Case {
         13 | 14 => Case::RelayKnown { url: rng.usize_below(2), id: rng.usize_below(4) },
         15 | 16 => {
             let n = rng.range(0, 40) as usize;
-            Case::CustomKnown { id: *rng.pick(&[77u64, 78, 99]), data: rng.bytes(n), src_local: rng.chance(1, 3) }
+            let mut data = rng.bytes(n);
+            if !data.is_empty() {
+                // first byte scripts the recording transport: 0xEE = error, 0xDD = pending
+                data[0] = match rng.below(4) {
+                    0 => 0xEE,
+                    1 => 0xDD,
+                    _ => data[0] & 0x7f,
+                };
+            }
+            Case::CustomKnown { id: *rng.pick(&[77u64, 78, 99]), data, src_local: rng.chance(1, 3) }
         }
         17 => Case::EndpointKnown { id: rng.usize_below(4) },
         _ => Case::Unknown { subnet: *rng.pick(&[0u16, 1, 3]), host: rng.array::<8>() },
@@ -648,6 +662,13 @@ fn run_set(rep: &Report, rt: &tokio::runtime::Runtime, env: &Env, set: &SetSpec,
                     continue;
                 }
                 rep.count(if has_transport { "custom.handed_to_its_transport" } else { "custom.dropped_no_transport" }, 1);
+                if has_transport {
+                    match data.first() {
+                        Some(0xEE) => rep.count("custom.transport_error_not_reported_as_fatal", 1),
+                        Some(0xDD) => rep.count("custom.transport_pending_not_reported_as_fatal", 1),
+                        _ => {}
+                    }
+                }
             }
             Case::EndpointKnown { id } => {
                 let want = Sel::Endpoint { id: ids[*id].to_string() };
@@ -860,6 +881,7 @@ fn main() {
     rep.require("wire.confirmed", 300);
     rep.require("relay.handed_to_relay_path", 50);
     rep.require("custom.handed_to_its_transport", 50);
+    rep.require("custom.transport_error_not_reported_as_fatal", 10);
     rep.require("endpoint.handed_to_endpoint_state", 30);
     rep.require("unknown.dropped", 50);
     rep.finish();
